@@ -207,6 +207,15 @@ def run(ctx):
     tasks = make_tasks(ctx, quick)
     pool = multiprocessing.Pool(vlib.NPROC)
     async_sys = pool.map_async(S.worker, tasks, chunksize=1)
+    reply_tasks = []
+    for kind, ver in S.REPLY_KINDS:
+        rr = random.Random(ctx.rng.getrandbits(48))
+        sch = S.reply_schedules(rr, 6 if quick else 150)
+        seed = rr.getrandbits(32)
+        nparts = 1 if quick else 6
+        for i in range(nparts):
+            reply_tasks.append((kind, ver, sch[i::nparts], seed))
+    async_reply = pool.map_async(S.worker_reply, reply_tasks, chunksize=1)
     # ---- proofs
     res = vlib.proof_stage(ctx, 'Props/C14.v', model_targets=['Model/C14_Check.vo', 'Model/C14_AsyncSM.vo'])
     ctx.log('proof stage ok=%s failing=%s' % (res['ok'], res['failing']))
@@ -289,6 +298,20 @@ def run(ctx):
         found |= bad
         feed_lits += lits
         ctx.count('unit-defrag-refragment', 4, [(len(fc['streams'][22]) // 16, len(fc['streams'][21]), len(fc['streams'][20]))])
+    # AsyncStateMachine = generator run to completion (direct oracle, select()-like event loop)
+    n_asm_bad = 0
+    for kind, ys, value in U.asm_direct_cases(rng, n_def):
+        bad = U.impl_asm_select(kind, ys, value)
+        ctx.count('unit-asm-select', 1, [(kind, tuple(ys[:4]), len(ys))])
+        if bad:
+            found = True
+            n_asm_bad += 1
+            if n_asm_bad > 4:
+                continue
+            ctx.violation('unit-asm:%s:%s' % (kind, 'yields1' if 1 in ys else 'yields0'),
+                          'AsyncStateMachine driving a %s operation that yields %r: %s' % (kind, ys, bad),
+                          {'kind': 'asm-select', 'op': kind, 'yields': ys, 'value': value,
+                           'how': 'harness/c14_util.impl_asm_select(op, yields, value)'})
     asm_lits = []
     for _ in range(n_def):
         case = U.gen_asm_case(rng)
@@ -319,7 +342,7 @@ def run(ctx):
     else:
         tie_broken = tie_broken or ('model does not compile: %s' % res['failing'])
     # ---- system level results
-    sys_res = async_sys.get(timeout=3000)
+    sys_res = async_sys.get(timeout=6000) + async_reply.get(timeout=6000)
     pool.close()
     pool.join()
     n_runs = 0
@@ -351,7 +374,8 @@ def run(ctx):
                 if key.startswith('sync-flush-reached'):
                     what = 'socket.sendall (BufferedSocket.flush(), blocking-socket API) was reached from the generator API; ' + what
                 ctx.violation(key, what,
-                              {'kind': 'sys', 'scenario': r['name'], 'sched': s, 'seed_task': r.get('seed'),
+                              {'kind': 'sys-reply' if r.get('reply') else 'sys', 'reply': r.get('reply'),
+                               'scenario': r['name'], 'sched': s, 'seed_task': r.get('seed'),
                                'diffs': repr(diffs)[:4000],
                                'how': './check C14 --replay <this file> reruns the scenario under the schedule'})
                 found = True
@@ -441,6 +465,19 @@ def replay(ctx, path):
             for s, diffs, outcome, rf in w.get('results', []):
                 print('seed', seed, 'schedule', S.sched_class(s), 'differences:', diffs[:3] if diffs else 'none')
                 bad |= bool(diffs)
+        return 1 if bad else 0
+    if kind == 'asm-select':
+        bad = U.impl_asm_select(r['op'], r['yields'], r['value'])
+        print('AsyncStateMachine select loop:', bad or 'runs the generator to completion')
+        return 1 if bad else 0
+    if kind == 'sys-reply':
+        import c14_sys as S
+        k, ver = r['reply'][0], tuple(r['reply'][1])
+        w = S.worker_reply((k, ver, [r['sched']], r['seed_task']))
+        bad = 0
+        for s_, diffs, outcome, rf in w.get('results', []):
+            print('schedule', s_, 'differences:', diffs[:4] if diffs else 'none')
+            bad |= bool(diffs)
         return 1 if bad else 0
     if kind == 'recv':
         c = r['case']
